@@ -25,13 +25,27 @@ LEVEL_TEXT = ("Lean 4 theorems about the executable solver models: the matrix Q 
               "plus an exact rational oracle (reference generalised inverse) on the implementation's answers.")
 LEVEL_NOTE = ("Theorems are about exact arithmetic; IEEE rounding is not proved. For the envelope solver both the regular case "
               "(Q = N^-1) and the singular case (Q = T Q0 T' with the S-projector of the configured regularisation; "
-              "q_bb = A Q A' for every g-inverse, projector, diagonal in [0,1], redundancy sum m - n + defect) are proved, "
-              "for every ordering, with the homogenisation factor W (W'W = P) taken as given (C10) and the packed "
-              "envelope profile / sparse inverse inside the envelope replaced by its dense definition (C16). "
-              "The XML covariance band is checked at network level by C12.")
+              "q_bb = A Q A' for every g-inverse, projector, diagonal in [0,1], redundancy sum m - n + defect) are proved "
+              "about envSolve, the function the driver runs: the homogenisation factor W (W'W = P, injective, At = W A) is "
+              "PROVED for the model of Homogenization::run (C01_envsolve_homogenize), the ordering is the model's own RCM "
+              "(C01_envsolve_ordering), and the sparse inverse inside the envelope equals the full dense "
+              "L^-T D^+ L^-1 for ALL index pairs incl. outside the profile (C03_env_sparse_inverse_eq_full, _ldl, _solver; "
+              "the packed profile storage = the dense entries inside the profile is C16_envelope_refines_ls_dense). Also "
+              "proved: Q positive semi-definite and belonging to the regularisation for all four solvers, and the same "
+              "statements through both facades (Adj: C03_adj_cofactors; LocalNetwork: C03_net_cofactors, q_bb = hat matrix of "
+              "the ONE homogenised system for all four algorithms, C03_net_homogenisations_agree). svd: no factorisation "
+              "certificate any more (Props/C03/SvdDecompose.lean: for the factors Svd.decompose returns, with unambiguous "
+              "singular values; C03_svd_solve_decompose about svdSolve). Hypotheses that stay: each algorithm's 'every tested "
+              "quantity is exactly 0 or above its tolerance' on its own trace, convergence of the svd QR iteration "
+              "(= Svd.decompose returns), IEEE rounding; the absolute tolerances of the real kernels under extreme weights are "
+              "known findings (F22, C09-F2, C10-TINY). The XML covariance band is checked at network level by C12 "
+              "(C03_xml_cov_is_m0sq_Q).")
 TECHNIQUE = "Lean 4 proof (ordered-field algebra, induction over the factorisation loops) + model/implementation correspondence"
 MODELLED = ["IEEE rounding (proofs over exact ordered fields)",
-            "envelope profile storage (dense model; C16 proves packed = dense)"]
+            "envelope profile storage (drv_ls runs the dense zEntry recursion; C03_env_sparse_inverse_eq_full proves it equals "
+            "the full inverse for all index pairs, C16_envelope_refines_ls_dense proves the packed profile = these entries)",
+            "SVD::svd: convergence of the QR iteration (= Svd.decompose returns) and negligibility under rounding; the "
+            "factorisation it returns is proved (Svd.decompose_cert)"]
 ASSUMPTIONS = ["rank numerically unambiguous: generator keeps exact small-integer/dyadic data so every pivot is 0 or O(1)"]
 
 ALGS = ["env", "chol", "gso", "svd"]
@@ -84,6 +98,254 @@ def make_cases(ctx, nprob, quota_=None):
                     cases.append(g.problem_lines(p, reg) + [f"new {alg} {entry}"] + qs)
                     meta.append((p, S, alg, entry, ok))
     return cases, meta
+
+
+# ---------------------------------------------------------------------------------- histories (round 6)
+# Every HIST_EVERY-th resolving case is asked of a REUSED object (harness/c03_history.cpp): the object first holds
+# another problem (same dimensions, or other ones) or another configuration, answers a random subset of cofactor
+# queries (rows repeated), is then reset / re-configured to the case's problem and asked ALL entries.  The model side
+# (drv_ls) and the exact reference get the case's problem ALONE (the unchanged fresh case): Props/C03/History.lean
+# proves that the cofactors after any history are those of a fresh object.
+HIST_EVERY = 3
+HIST_KINDS = ("same", "same", "other", "none")      # reset to same dimensions | other dimensions | no new input
+SILENT = ("problem", "row", "cov", "rhs", "minx")   # definition lines: no output
+
+
+def hist_harness(ctx):
+    return ctx.build_cpp("c03_history", [ctx.verif / "harness" / "c03_history.cpp"] + [ctx.repo / s for s in c01.SRC],
+                         includes=[ctx.verif / "harness"])
+
+
+def _finish(q):
+    q["kernel"] = g.kernel(g.dense(q), q["n"])
+    q["defect"] = len(q["kernel"])
+    q["unit_cov"] = all(b["width"] == 0 and all(x == 1 for x in b["v"]) for b in q["cov"])
+    return q
+
+
+def same_shape_variant(rng, p, unit):
+    """ANOTHER problem with the same m x n (the first problem a reused object holds): rows shuffled, other covariance
+    and right-hand side; half of them keep the unknowns' numbering and rescale whole rows (same null space, same
+    sparsity pattern of N: the keys of the envelope's row cache coincide and the same regularisation list is valid),
+    the others renumber the unknowns and rescale single coefficients (defect and ordering may change)"""
+    n, m = p["n"], p["m"]
+    rows = [list(r) for r in p["rows"]]
+    rng.shuffle(rows)
+    perm = list(range(1, n + 1))
+    if rng.random() < 0.5:
+        rows = [[(c, v * f) for c, v in r] for r in rows for f in [rng.choice([1, 2, -1, 3, F(1, 2)])]]
+    else:
+        rng.shuffle(perm)
+        rows = [[(perm[c - 1], v * rng.choice([1, 1, 2, -1, 3])) for c, v in r] for r in rows]
+    q = {"m": m, "n": n, "rows": rows, "family": p["family"],
+         "cov": [{"dim": m, "width": 0, "v": [F(1)] * m}] if unit else g.gen_cov(rng, m, True),
+         "rhs": [F(rng.randint(-8, 8), rng.choice([1, 2, 4])) for _ in range(m)]}
+    return _finish(q)
+
+
+def other_problem(rng, unit):
+    while True:
+        q = g.gen_problem(rng, rng.choice(["levelling", "dense"]), correlated=(not unit and rng.random() < 0.5))
+        if q["n"] >= 2:
+            break
+    if unit:
+        q["cov"] = [{"dim": q["m"], "width": 0, "v": [F(1)] * q["m"]}]
+        _finish(q)
+    return q
+
+
+def _valid_for(p, S):
+    if S is None or S == "all":
+        return True
+    return all(1 <= i <= p["n"] for i in S) and (p["defect"] == 0 or g.resolves(p, S))
+
+
+def _minx_op(reg):
+    return "min_x_all" if reg == "all" else "min_x %d %s" % (len(reg), " ".join(map(str, reg)))
+
+
+def _resolving(rng, p, k=3):
+    return [S for S, ok in g.gen_subsets(rng, p, k) if ok]
+
+
+def cof_queries(rng, p, entry, k):
+    """k cofactor queries on few rows (the same row again and again: what the per-row caches key on), any column,
+    every fifth the previous query verbatim"""
+    n, m = p["n"], p["m"]
+    xr = [rng.randint(1, n) for _ in range(rng.randint(1, 3))]
+    br = [rng.randint(1, m) for _ in range(rng.randint(1, 2))]
+    kinds = ["qxx", "qxx", "qbb", "qbb"] + (["q0xx", "qbx"] if entry == "solver" else [])
+    out = []
+    for _ in range(k):
+        if out and rng.random() < 0.2:
+            out.append(out[-1])
+            continue
+        t = rng.choice(kinds)
+        if t in ("qxx", "q0xx"):
+            out.append(f"{t} {rng.choice(xr)} {rng.randint(1, n)}")
+        elif t == "qbb":
+            out.append(f"qbb {rng.choice(br)} {rng.randint(1, m)}")
+        else:
+            out.append(f"qbx {rng.choice(br)} {rng.randint(1, n)}")
+    return out
+
+
+def _fits(q, p):
+    t = q.split()
+    i, j = int(t[1]), int(t[2])
+    lim = {"qxx": (p["n"], p["n"]), "q0xx": (p["n"], p["n"]), "qbb": (p["m"], p["m"]), "qbx": (p["m"], p["n"])}[t[0]]
+    return i <= lim[0] and j <= lim[1]
+
+
+def case_reg(case):
+    t = next(l for l in case if l.startswith("minx ")).split()
+    return "all" if t[1] == "all" else None if t[1] == "none" else [int(x) for x in t[2:2 + int(t[1])]]
+
+
+def make_history(rng, case, p, alg, entry, kind):
+    """the ops of the reused object that ends in `case`'s problem / configuration / algorithm and then asks the case's
+    queries; returns (ops, warm, info): `warm` = number of (query, fresh query) pairs right before the final sweep"""
+    reg = case_reg(case)
+    sweep = case[case.index("end") + 2:]
+    unit = entry == "solver" and alg != "env"
+    info = {"kind": kind, "minx": 0, "setalg": 0, "pre": 0}
+    if kind == "same":
+        p1 = same_shape_variant(rng, p, unit or rng.random() < 0.4)
+    elif kind == "other":
+        p1 = other_problem(rng, unit)
+        if (p1["m"], p1["n"]) == (p["m"], p["n"]):
+            info["kind"] = kind = "same"
+    else:
+        p1 = p
+    subs1 = _resolving(rng, p1)
+    cfg1 = reg if (_valid_for(p1, reg) and (kind == "none" and entry == "adj" or rng.random() < 0.85)) else rng.choice(subs1 + ["all"])
+    ops = (g.problem_lines(p, reg) + g.problem_lines(p1, cfg1)) if kind != "none" else g.problem_lines(p, cfg1 if entry == "solver" else reg)
+    pre = cof_queries(rng, p1, entry, rng.randint(3, 8))
+    # the last query before the change is a q_bb or a q_xx on a row asked before (the envelope keeps rows of q_xx, so
+    # there it is more often the q_xx; its q_bb walks q0_xx columns and recycles the three row buffers)
+    if rng.random() < {"env": 0.2, "chol": 0.8}.get(alg if entry == "solver" else "", 0.5):
+        pre.append(f"qbb {rng.randint(1, p1['m'])} {rng.randint(1, p1['m'])}")
+    else:
+        xs = [q.split()[1] for q in pre if q.startswith("qxx")] or [str(rng.randint(1, p1["n"]))]
+        pre.append(f"qxx {rng.choice(xs)} {rng.randint(1, p1['n'])}")
+    info["pre"] = len(pre)
+    if entry == "solver":
+        ops.append(f"new {alg} solver")
+        if len(subs1) > 1 and rng.random() < 0.3:             # a min_x change in the first life
+            k = rng.randint(1, len(pre) - 1)
+            S1b = rng.choice(subs1)
+            pre = pre[:k] + [_minx_op(S1b), _minx_op(cfg1) if rng.random() < 0.5 else "x"] + pre[k:]
+            if not pre[k + 1].startswith("min_x"):
+                cfg1 = S1b
+            info["minx"] += 1
+        ops += pre
+        change = []
+        if kind != "none":
+            change.append("reset_new 1")
+        elif rng.random() < 0.5 or cfg1 == reg:
+            change.append("reset")
+        if cfg1 != reg or rng.random() < 0.1:
+            # before the new input only if the list is one for the system the object still holds (SVD::min_x(list)
+            # re-regularises at once; indices beyond its size are the caller's error, outside the property)
+            change.insert(rng.randint(0, len(change)) if _valid_for(p1, reg) else len(change), _minx_op(reg))
+            info["minx"] += 1
+        ops += change
+        alt = [S for S in _resolving(rng, p) if S != reg and p["defect"] > 0]
+        if alt and rng.random() < 0.2:                       # min_x change after queries on the final problem
+            ops += [_minx_op(rng.choice(alt))] + [q for q in cof_queries(rng, p, entry, 3) if q.startswith("qxx")] + [_minx_op(reg)]
+            info["minx"] += 2
+    else:
+        cur = rng.choice(ALGS)
+        ops.append(f"new {cur} adj")
+        pre = [q for q in pre if q.startswith(("qxx", "qbb"))]
+        info["pre"] = len(pre)
+        if rng.random() < 0.4:                                # set_algorithm in the first life
+            k = rng.randint(0, len(pre))
+            cur = rng.choice(ALGS)
+            pre = pre[:k] + [f"set_alg {cur}"] + pre[k:]
+            info["setalg"] += 1
+        ops += pre
+        before = cur != alg and rng.random() < 0.4
+        if before:
+            ops.append(f"set_alg {alg}")
+            cur = alg
+            info["setalg"] += 1
+        if kind != "none":
+            ops.append("reset_new 1")
+        elif rng.random() < 0.5:
+            ops.append("reset")
+        if cur != alg or rng.random() < 0.4:                  # set_algorithm after queries on the final problem
+            if cur == alg:
+                cur = rng.choice([a for a in ALGS if a != alg])
+                ops.append(f"set_alg {cur}")
+                info["setalg"] += 1
+            ops += [q for q in cof_queries(rng, p, entry, 3) if q.startswith(("qxx", "qbb"))] + [f"set_alg {alg}"]
+            info["setalg"] += 1
+    # the most recent cofactor queries again, most recent first (whatever was cached for them is now stale), each
+    # followed by the same query on a brand-new object
+    warm = []
+    for q in reversed([q for q in pre if q.split()[0] in ("qxx", "q0xx", "qbb", "qbx") and _fits(q, p)]):
+        if q not in warm:
+            warm.append(q)
+        if len(warm) == 3:
+            break
+    for q in warm:
+        ops += [q, "fresh " + q]
+    return ops + sweep, len(warm), info
+
+
+def add_histories(rng, cases, meta):
+    """hist[i] = (ops, warm, info) for every HIST_EVERY-th case whose subset resolves the defect"""
+    hist = {}
+    k = 0
+    for i, (c, (p, S, alg, entry, ok)) in enumerate(zip(cases, meta)):
+        if i % HIST_EVERY != HIST_EVERY - 1 or not ok:
+            continue
+        hist[i] = make_history(rng, c, p, alg, entry, HIST_KINDS[k % len(HIST_KINDS)])
+        k += 1
+    return hist
+
+
+def run_impl(ctx, cases, hist, jobs=4):
+    """the implementation's answers in the layout of the fresh case (`ok ok <answers to the case's queries>`) for every
+    case; history cases run on the reused object.  Returns (impl, crashes, warm): warm[i] = [(query, got, fresh)],
+    and for a history case whose output is malformed impl[i] = the raw output (the oracle reports the protocol)"""
+    plain = [i for i in range(len(cases)) if i not in hist]
+    hidx = sorted(hist)
+    with concurrent.futures.ThreadPoolExecutor(max_workers=2) as ex:
+        fh = ex.submit(g.run_cases_par, hist_harness(ctx), [hist[i][0] for i in hidx], max(1, jobs // 2)) if hidx else None
+        po, pc = g.run_cases_par(c01.harness(ctx), [cases[i] for i in plain], jobs)
+        ho, hc = fh.result() if fh else ([], {})
+    impl, crashes, warm = [None] * len(cases), {}, {}
+    for k, i in enumerate(plain):
+        impl[i] = po[k]
+        if k in pc:
+            crashes[i] = pc[k]
+    for k, i in enumerate(hidx):
+        ops, nw, info = hist[i]
+        if k in hc:
+            crashes[i] = hc[k]
+        out = ho[k]
+        ns = len(cases[i]) - (cases[i].index("end") + 2)
+        expect = sum(1 for l in ops if not l.startswith(SILENT))
+        if len(out) != expect or "bad-op" in out:
+            impl[i] = ["history protocol: %d lines for %d ops" % (len(out), expect)] + out[:40]
+            continue
+        impl[i] = ["ok", "ok"] + out[len(out) - ns:]
+        w = out[len(out) - ns - 2 * nw:len(out) - ns]
+        qs = ops[len(ops) - ns - 2 * nw:len(ops) - ns]
+        warm[i] = [(qs[2 * j], w[2 * j], w[2 * j + 1]) for j in range(nw)]
+    return impl, crashes, warm
+
+
+def warm_failures(warm_i):
+    """a cofactor asked of the reused object right after its input / configuration changed must be the cofactor a
+    brand-new object reports"""
+    bad = []
+    for q, got, fresh in warm_i:
+        if not lines_equal(got, fresh, rtol=1e-9, atol=1e-10):
+            bad.append(f"'{q}' on the reused object: {got}, brand-new object with the same input: {fresh}")
+    return bad
 
 
 def refused_oracle(p, S, alg, entry, case, out):
@@ -212,11 +474,11 @@ def oracle(p, S, alg, entry, out, ref):
 
 
 def correspond(ctx, corr):
-    exe = c01.harness(ctx)
     cases, meta = make_cases(ctx, ctx.size(30, 600))
+    hist = add_histories(ctx.rng, cases, meta)      # the model gets the fresh case, the implementation the history
     with concurrent.futures.ThreadPoolExecutor(max_workers=2) as ex:
         fm = ex.submit(g.run_cases_par, ctx.driver("drv_ls"), cases, 3)
-        impl, crashes = g.run_cases_par(exe, cases, 4)
+        impl, crashes, warm = run_impl(ctx, cases, hist, 4)
         model, _ = fm.result()
     traced, sw, off = gs_trace(ctx, cases, meta)
     corr.count("chol_gs_cases_traced", traced)
@@ -238,9 +500,28 @@ def correspond(ctx, corr):
             corr.count("cases_defect_ge3_proper_" + ("resolving" if ok else "not_resolving"))
         corr.count("correlated" if not p["unit_cov"] else "unit_cov")
         corr.count("family_" + p["family"])
+        stream, site = "ls", f"{alg}/{entry}"
+        if i in hist:
+            # the implementation ran `hist[i][0]` on a reused object; everything below sees its answers to the
+            # case's own queries, and failing inputs are the history
+            c, nw, info = hist[i]
+            stream, site = "ls-history", f"{alg}/{entry} reused object ({info['kind']})"
+            corr.count("history_cases")
+            corr.count("history_" + {"same": "reset_same_dimensions", "other": "reset_other_dimensions",
+                                     "none": "same_input"}[info["kind"]])
+            corr.count(f"history_alg_{alg}_{entry}")
+            corr.count("history_min_x_changes", info["minx"])
+            corr.count("history_set_algorithm", info["setalg"])
+            corr.count("history_queries_before_the_change", info["pre"])
         if i in crashes:
-            corr.fail("solver crashed / sanitizer report", {"stream": "ls", "ops": c}, f"{alg}/{entry}", crashes[i][1])
+            corr.fail("solver crashed / sanitizer report", {"stream": stream, "ops": c}, site, crashes[i][1])
             continue
+        if i in warm:
+            corr.count("history_requeries_vs_fresh_object", len(warm[i]))
+            wbad = warm_failures(warm[i])
+            if wbad:
+                corr.fail("cofactor depends on the object's history: " + "; ".join(wbad[:3]),
+                          {"stream": stream, "ops": c, "subset": S}, site, " | ".join(w[1] for w in warm[i]))
         nm, pairs = False, 0
         for a, b in zip(impl[i], model[i]):
             if b == "not-modelled":
@@ -248,14 +529,14 @@ def correspond(ctx, corr):
                 continue
             pairs += 1
             if not lines_equal(a, b, rtol=1e-9, atol=1e-9):
-                corr.disagree("ls", c, impl[i], model[i], f"{alg}/{entry}")
+                corr.disagree(stream, c, impl[i], model[i], site)
                 break
             va, vb = val(a), val(b)
             if va is not None and vb is not None:
                 corr.maxstat("max_dev_model_impl", abs(va - vb))
         else:
             if len(impl[i]) != len(model[i]):
-                corr.disagree("ls", c, impl[i], model[i], "length")
+                corr.disagree(stream, c, impl[i], model[i], "length")
         corr.count("not_modelled" if nm else "modelled")
         corr.count("answers_compared", pairs)
         if not ok:
@@ -266,7 +547,7 @@ def correspond(ctx, corr):
                 refs[key] = g.reference(p, S)
             bad = oracle(p, S, alg, entry, impl[i], refs[key])
         if bad:
-            corr.fail("; ".join(bad), {"stream": "ls", "ops": c, "subset": S}, f"{alg}/{entry}", " | ".join(impl[i][:8]))
+            corr.fail("; ".join(bad), {"stream": stream, "ops": c, "subset": S}, site, " | ".join(impl[i][:8]))
     for k, i in enumerate(ratidx):
         corr.count("rat_cases")
         if i in crashes:
@@ -286,19 +567,34 @@ def correspond(ctx, corr):
     for k, need in CASE_MIN.items():
         if corr.stats.get(k, 0) < need:
             corr.inconclusive.append(f"case mix: {k} = {corr.stats.get(k, 0)} < {need}")
+    # histories: a fixed share of the cases, every algorithm at both entries, each kind of change
+    nres = sum(1 for x in meta if x[4])
+    if corr.stats.get("history_cases", 0) < nres // HIST_EVERY - 2:
+        corr.inconclusive.append(f"history share: {corr.stats.get('history_cases', 0)} of {nres} resolving cases")
+    for k in [f"history_alg_{a}_{e}" for a in ALGS for e in ("solver", "adj")] + \
+            ["history_reset_same_dimensions", "history_reset_other_dimensions", "history_same_input",
+             "history_min_x_changes", "history_set_algorithm", "history_requeries_vs_fresh_object"]:
+        if corr.stats.get(k, 0) < 5:
+            corr.inconclusive.append(f"history mix: {k} = {corr.stats.get(k, 0)} < 5")
 
 
 def search(ctx, broken, corr):
     big = Ctx(ctx.id, "thorough", ctx.seed + 1000)
     big.thorough = True
-    exe = c01.harness(ctx)
     cases, meta = make_cases(big, 150)
-    impl, crashes = run_cases(exe, cases)
+    hist = add_histories(big.rng, cases, meta)
+    impl, crashes, warm = run_impl(ctx, cases, hist, 4)
     out, refs = [], {}
     for i, (c, (p, S, alg, entry, ok)) in enumerate(zip(cases, meta)):
+        if i in hist:
+            c = hist[i][0]
         if i in crashes:
             out.append(Failure("solver crashed / sanitizer report", {"stream": "ls", "ops": c}, f"{alg}/{entry}", crashes[i][1]))
             continue
+        wbad = warm_failures(warm.get(i, []))
+        if wbad:
+            out.append(Failure("cofactor depends on the object's history: " + "; ".join(wbad[:3]),
+                               {"stream": "ls-history", "ops": c, "subset": S}, f"{alg}/{entry} reused object", ""))
         if not ok:
             bad = refused_oracle(p, S, alg, entry, c, impl[i])
         else:
@@ -319,7 +615,8 @@ def replay(ctx, payload):
     if not f:
         print(json.dumps(payload.get("no_longer_checks"), indent=1)[:3000])
         return 1
-    exe = c01.harness(ctx)
+    # harness/c03_history.cpp speaks the protocol of adj_harness.cpp plus `reset_new` (several problems per case)
+    exe = hist_harness(ctx) if any(l.startswith("reset_new") for l in f["input"]["ops"]) else c01.harness(ctx)
     impl, crashes = run_cases(exe, [f["input"]["ops"]])
     print("\n".join(f["input"]["ops"]))
     print("->", impl[0], crashes)
